@@ -193,3 +193,16 @@ def run(machine, device, eof_exc, max_ops):
                 return r
     except Fault as flt:
         return ('runtime-memory-error', flt.address)
+
+
+def step_outcome(machine, device, eof_exc):
+    """execute one op; returns None (continue) or the termination tuple (cause, fault_address)"""
+    try:
+        try:
+            return machine.step(device)
+        except eof_exc:
+            if machine.micro == 'm3':
+                return ('EOF', None)
+            raise
+    except Fault as flt:
+        return ('runtime-memory-error', flt.address)
